@@ -133,11 +133,23 @@ func c11(p *Pkg, _ *Pkg, payload json.RawMessage, res *Result) {
 			})
 		}
 		for _, sop := range pl.Ops {
-			// credential states: absent / valid / invalid per scheme
+			// credential states: absent / valid / invalid per scheme, plus (for at most one header-borne
+			// scheme per request) a present but malformed header: empty, blank, the bare scheme word
+			malformed := func(kind string) []string {
+				switch kind {
+				case "bearer":
+					return []string{"", " ", "Bearer", "Bearer "}
+				case "apikey-hdr":
+					return []string{""}
+				}
+				return nil
+			}
 			n := len(keys)
+			dom := make([]int, n)
 			total := 1
-			for i := 0; i < n; i++ {
-				total *= 3
+			for i, k := range keys {
+				dom[i] = 3 + len(malformed(schemes[k].Kind))
+				total *= dom[i]
 			}
 			for c := 0; c < total; c++ {
 				creds := map[string]refmodel.Cred{}
@@ -145,10 +157,26 @@ func c11(p *Pkg, _ *Pkg, payload json.RawMessage, res *Result) {
 				q := url.Values{}
 				x := c
 				var desc []string
-				for _, k := range keys {
-					st := x % 3
-					x /= 3
+				nMal := 0
+				malKey := ""
+				for i, k := range keys {
+					st := x % dom[i]
+					x /= dom[i]
 					s := schemes[k]
+					if st >= 3 {
+						// no usable credential: judged as absent or as invalid, whichever the implementation treats it as
+						nMal++
+						malKey = k
+						val := malformed(s.Kind)[st-3]
+						creds[k] = refmodel.Cred{Installed: installed[k]}
+						desc = append(desc, fmt.Sprintf("%s(%s)=malformed%q/%s", k, s.Kind, val, map[bool]string{true: "installed", false: "nil"}[installed[k]]))
+						if s.Kind == "bearer" {
+							hdr["Authorization"] = []string{val}
+						} else {
+							hdr[http.CanonicalHeaderKey(s.Name)] = []string{val}
+						}
+						continue
+					}
 					cr := refmodel.Cred{Present: st != 0, Valid: st == 1, Installed: installed[k]}
 					creds[k] = cr
 					tok := map[int]string{1: "good-" + k, 2: "bad"}[st]
@@ -167,12 +195,31 @@ func c11(p *Pkg, _ *Pkg, payload json.RawMessage, res *Result) {
 						hdr.Set("X-Unsupported-"+k, tok)
 					}
 				}
+				if nMal > 1 {
+					continue
+				}
 				in := sop.Method + " " + sop.Path + " " + strings.Join(desc, " ")
 				ranOp, seenMark, consulted = nil, nil, nil
 				rec := NewRecorder()
 				pn := Catch(func() { api.ServeHTTP(rec, NewRequest(sop.Method, sop.Path, q.Encode(), hdr, nil)) })
 				res.Count("requests", 1)
 				v := refmodel.Secure(sop, schemes, creds)
+				ambiguous := false
+				if nMal == 1 {
+					// the malformed credential read as present-but-invalid must give the same verdict on whether
+					// the handler runs; where the two readings differ either is accepted
+					c2 := map[string]refmodel.Cred{}
+					for k, cr := range creds {
+						c2[k] = cr
+					}
+					c2[malKey] = refmodel.Cred{Present: true, Valid: false, Installed: installed[malKey]}
+					if v2 := refmodel.Secure(sop, schemes, c2); v2.HandlerRuns != v.HandlerRuns || v2.Public != v.Public {
+						res.Count("malformed-ambiguous", 1)
+						ambiguous = true
+					} else {
+						res.Count("malformed", 1)
+					}
+				}
 				attrs := secAttrs(pl, sop, schemes, installed)
 				bad := func(kind, observed, expected string) {
 					a := map[string]string{"kind": kind}
@@ -183,6 +230,9 @@ func c11(p *Pkg, _ *Pkg, payload json.RawMessage, res *Result) {
 				}
 				if pn != "" {
 					bad("panic", pn, "no panic")
+					continue
+				}
+				if ambiguous {
 					continue
 				}
 				ran := ranOp != nil
